@@ -285,6 +285,55 @@ func TestVerifReplayMath(t *testing.T) {
 			}
 		}
 	}
+	// 2c. implied multiplication: `b(c)` is `b * (c)`, an ordinary `*` at its own level, next to
+	// every binary operator on either side and after a function call
+	for _, o := range ops {
+		for _, a := range []string{"12", "[0]", "2.5"} {
+			for _, b := range []string{"2", "[1]", "3"} {
+				for _, c := range []string{"3", "[0]", "1 + 1"} {
+					na, nb, nc := &vrNode{leaf: a}, &vrNode{leaf: b}, &vrNode{leaf: c}
+					if c == "1 + 1" {
+						nc = &vrNode{op: "+", l: &vrNode{leaf: "1"}, r: &vrNode{leaf: "1"}}
+					}
+					var right, left *vrNode // a o b(c)   and   a(c) o b
+					if vrLevel(o) <= vrLevel("*") {
+						right = &vrNode{op: "*", l: &vrNode{op: o, l: na, r: nb}, r: nc}
+					} else {
+						right = &vrNode{op: o, l: na, r: &vrNode{op: "*", l: nb, r: nc}}
+					}
+					if vrLevel("*") <= vrLevel(o) {
+						left = &vrNode{op: o, l: &vrNode{op: "*", l: na, r: nc}, r: nb}
+					} else {
+						left = &vrNode{op: "*", l: na, r: &vrNode{op: o, l: nc, r: nb}}
+					}
+					for f, tr := range map[string]*vrNode{a + " " + o + " " + b + "(" + c + ")": right, a + "(" + c + ") " + o + " " + b: left} {
+						for _, bd := range bindings {
+							got, err, p := vrSafeEval(f, bd)
+							if p != nil || err != nil {
+								fmt.Printf("REPRODUCED: well-formed formula %q rejected or panics: %v %v\n", f, err, p)
+								t.Fail()
+								return
+							}
+							if want := tr.eval(bd); !vrSame(got, want) {
+								fmt.Printf("REPRODUCED: formula %q with [0]=%v [1]=%v evaluates to %v; with the implied multiplication written as * (%q) the documented order gives %v\n", f, bd[0], bd[1], got, tr.print(99, false), want)
+								t.Fail()
+								return
+							}
+						}
+					}
+				}
+			}
+		}
+	}
+	for _, bd := range bindings {
+		for f, want := range map[string]float64{"floor([0])(2)": math.Floor(bd[0]) * 2, "abs([1])(3)^2": math.Abs(bd[1]) * 9, "2(3)(4)": 24, "-[0](2)": -bd[0] * 2} {
+			if got, err, p := vrSafeEval(f, bd); p != nil || err != nil || !vrSame(got, want) {
+				fmt.Printf("REPRODUCED: formula %q with [0]=%v [1]=%v evaluates to %v (err=%v panic=%v), want %v\n", f, bd[0], bd[1], got, err, p, want)
+				t.Fail()
+				return
+			}
+		}
+	}
 	// 3. constants equal bound variables
 	for _, tr := range depth2 {
 		f := tr.print(99, false)
